@@ -52,7 +52,7 @@ cc7d7ae C06
 150fd1a C16
 6bbdeea C01 C04
 abbd290 C07
-3fa8016 C07 C02
+7436121+3fa8016 C07 C02
 7c11c0f C02
 9e9da05 C02 C08
 b68498d C02 C07
